@@ -18,7 +18,7 @@ RULE = ("N in 1..6, alphabet sizes 2..4 (uniform int or per-position list; per-p
 TRUSTED = ["brute-force enumeration of all strings in NumPy is the oracle",
            "float64 round-off of orthogonalised cores (<= 1e-13) is far from the .round() threshold 0.5 inside accepted_inputs"]
 ASSUMPTIONS = ["weights are distinct non-negative integers (a repeated weight would be counted twice by construction)",
-               "accepted_inputs is called on TT-format tensors (no CP cores, no Tucker factors) with non-negative integer values, as the property states"]
+               "accepted_inputs is called on non-negative integer-valued tensors: TT-format (dense-built, hand-built cores, squares, automata) and 0/1 hybrid tensors (CP/TT mixes, Tucker factors)"]
 
 
 def sums_grid(ns):
@@ -81,11 +81,19 @@ def gen_accepted(rng):
         N = rng.choice([1, 2, 2, 3, 3, 4, 5])
         hi = 4 if N <= 3 else 3
         shape = [1 if rng.random() < 0.1 else rng.randint(2, hi) for _ in range(N)]
-        src = rng.choice(["dense", "cores", "square", "automaton"])
+        src = rng.choice(["dense", "cores", "square", "automaton", "hybrid"])
         c = {"kind": "accepted_inputs", "src": src, "transform": rng.choice([None, None, "orthogonalize", "round_tt"]), "dd": gen_dd(rng)}
         if src == "dense":
             x = np.array([rng.choice([0, 0, 0, 1, 1, 2, 3]) for _ in range(int(np.prod(shape)))], dtype=np.float64).reshape(shape)
             c["x"] = x.tolist()
+        elif src == "hybrid":
+            # "any non-negative integer-valued tensor": 0/1 cores and factors in any format mix (CP next to TT, Tucker factors)
+            from core import gen_tensor
+            g = gen_tensor(rng, shape, rmax=2, stream="int")
+            g = PT([np.minimum(np.abs(cc), 1.0) for cc in g.cores], [None if U is None else np.minimum(np.abs(U), 1.0) for U in g.Us])
+            x = g.dense()
+            c["t"] = g.to_json()
+            c["transform"] = None
         elif src == "cores":
             rs = [1] + [rng.randint(1, 3) for _ in range(N - 1)] + [1]
             cs = [np.array([rng.choice([0, 0, 1, 1, 2]) for _ in range(rs[k] * shape[k] * rs[k + 1])], dtype=np.float64)
